@@ -82,3 +82,30 @@ Definition diff_hull (old new : bytes) : option (nat * bytes) :=
       | (_, _, rb) => match rb with [] => None | _ => Some (off, rev rb) end
       end
   end.
+
+(* ---------------------------------------------------------------- *)
+(* Cheap poison for volume runs: a ramp of period 251 (no alignment with
+   powers of two, adjacent bytes differ) starting at [seed mod 251]. *)
+Fixpoint ramp_from (b : N) (n : nat) : bytes :=
+  match n with
+  | O => []
+  | S k => b :: ramp_from (if b =? 250 then 0 else N.succ b) k
+  end.
+Definition ramp (seed : N) (n : nat) : bytes := ramp_from (seed mod 251) n.
+Definition mkbuf (cap len : nat) (seed : N) : slice := mkSlice (ramp seed cap) len.
+
+(* the same window computed in one linear pass (List.rev is quadratic):
+   first and last index at which the two lists differ *)
+Fixpoint diff_span (a b : bytes) (i : nat) (acc : option (nat * nat)) : option (nat * nat) :=
+  match a, b with
+  | x :: a', y :: b' =>
+      diff_span a' b' (S i)
+        (if x =? y then acc
+         else match acc with None => Some (i, i) | Some (f, _) => Some (f, i) end)
+  | _, _ => acc
+  end.
+Definition diff_window (old new : bytes) : option (nat * bytes) :=
+  match diff_span old new 0 None with
+  | None => None
+  | Some (f, l) => Some (f, sub new f (l - f + 1))
+  end.
